@@ -890,8 +890,26 @@ class Interp:
                 return self.havoc_loop(st, env)
         return self._st_For(st, env)
 
+    def _range_len_of_sequence(self, node, env):
+        """`range(len(S))` over a symbolic sequence S: the positions of its elements, in order (one unknown integer per element, as
+        for enumerate)"""
+        from .seq import SSeq
+        if (isinstance(node, ast.Call) and isinstance(node.func, ast.Name) and node.func.id == 'range' and len(node.args) == 1
+                and not node.keywords and isinstance(node.args[0], ast.Call) and isinstance(node.args[0].func, ast.Name)
+                and node.args[0].func.id == 'len' and len(node.args[0].args) == 1 and env.lookup('range')[0] is False
+                and env.lookup('len')[0] is False):
+            s = self.ev(node.args[0].args[0], env)
+            if isinstance(s, XList) and s.base is not None and not s.items:
+                s = s.base
+            if isinstance(s, SSeq):
+                pairs = self.loops.seq_enumerate(self, s, 0)
+                return pairs.with_stage('map', lambda pr: pr[0])
+        return None
+
     def _st_For(self, st, env):
-        it = self.ev(st.iter, env)
+        it = self._range_len_of_sequence(st.iter, env)
+        if it is None:
+            it = self.ev(st.iter, env)
         if isinstance(it, SStr) and not it.is_concrete():
             return self.for_over_runs(st, it, env)
         from .seq import SSeq
@@ -2287,6 +2305,28 @@ class Interp:
             self.depth -= 1
             self.cur_func, self.cur_line = saved
         return flow, value, env
+
+    def run_tail(self, f, text, values):
+        """The statements of function f that follow the loop `text` (a statement at the top level of the function body), run to the
+        end of the function from the state `values` (parameters and locals by name): returns (value, env)."""
+        loop = self.find_loop(f, text)
+        idx = next((i for i, st in enumerate(f.node.body) if st is loop), None)
+        if idx is None:
+            raise Unsupported(f'tail contract: the loop {text!r} is not a statement at the top level of {f.qualname}')
+        env = Env(f.module, f.cls, f)
+        env.vars.update(values)
+        self.depth += 1
+        saved = (self.cur_func, self.cur_line)
+        self.cur_func = f.qualname
+        value = None
+        try:
+            self.exec_block(f.node.body[idx + 1:], env)
+        except _Return as r:
+            value = r.value
+        finally:
+            self.depth -= 1
+            self.cur_func, self.cur_line = saved
+        return value, env
 
     def _set_by_constructor(self, cls, attr):
         for c in cls.mro():
